@@ -375,6 +375,24 @@ theorem C11_queue_no_hung {m : SeqQ} {s : AbsState × Int} (h : SimQ m s) (c : Q
   rw [(stepQ_sim h c).2]
   cases c <;> simp [stepQS]
 
+/-- the model side of the store drivers: `Drv.runCall` for an instance / queue call (the machine stepped with trace
+labels, budget 200) ends in the keyspace and id counter of the machine call `C11_queue_main` folds over and renders its
+result, as long as at most 98 probes are queued (`PopMany` may need `2·ZCARD + 1` commands: a round that finds only
+expired items is followed by another one) -/
+theorem driver_queue_refines {s : Drv.SeqState} {a : AbsState} (h : SimQ ⟨s.st, s.clock, s.fresh⟩ (a, s.clock)) (op : QOp)
+    (hb : s.st.pQueue.size ≤ 98) :
+    ∃ r : QResult,
+      (SeqQ.call ⟨s.st, s.clock, s.fresh⟩ op).2 = QRes.ofQ r ∧
+      (Drv.runCall s (.q op) .none).2.1 = Drv.renderQResult op r ∧
+      (Drv.runCall s (.q op) .none).1.st = (SeqQ.call ⟨s.st, s.clock, s.fresh⟩ op).1.st ∧
+      (Drv.runCall s (.q op) .none).1.fresh = (SeqQ.call ⟨s.st, s.clock, s.fresh⟩ op).1.fresh ∧
+      (Drv.runCall s (.q op) .none).1.clock = s.clock := by
+  obtain ⟨r, hr⟩ := Drv.call_done h op
+  obtain ⟨e1, e2, e3, e4⟩ := Drv.runCall_q_eq s op r (by omega) hr
+  refine ⟨r, ?_, e4, e1, e2, e3⟩
+  have hr' : (runQ s.st s.clock s.fresh op op.begin (SeqQ.budget ⟨s.st, s.clock, s.fresh⟩)).2.1 = .done r := hr
+  simp only [SeqQ.call, hr']
+
 /-! ### non-vacuity -/
 
 def demoProbe : Probe := ⟨⟨16843009, 10480⟩, 10481, .details, 0, 3⟩
